@@ -61,3 +61,8 @@ PROPS["C20"] = {"units": [
     plain_unit("sweep", "xor", "^TestC20Sweep$", overlay="plain"),
     rapid_unit("rapid", "xor", "^TestC20Rapid$", 30000, 16 * 300000, overlay="plain"),
 ]}
+
+PROPS["C09"] = {"units": [
+    plain_unit("regress", "dl", "^TestRegressC09", overlay="full"),
+    rapid_unit("sequential", "dl", "^TestC09Sequential$", 50000, 16 * 1000000, overlay="full"),
+]}
